@@ -97,6 +97,8 @@ def main():
                     print(name, "NOT CONFIRMED", (out0 if rc0 else "")[-600:], (out2 if rc2 else "")[-600:], flush=True)
                     continue
                 props = [pid] + [p for p in (ALL if all_props else RELATED.get(pid, [])) if p != pid]
+                if os.environ.get("VERIF_SEED_TARGET_ONLY") == "1":
+                    props = [pid]
                 verdicts = {}
                 for p in props:
                     e = dict(os.environ, VERIF_REPO=wt)
